@@ -7,7 +7,7 @@ from props.c03 import gen_ctor
 
 PID = "C14"
 LEVEL = "proof"
-LEAN_TARGETS = ["SyneTune.Props.C14", "SyneTune.Props.C14Comp", "SyneTune.Props.C14Dy"]
+LEAN_TARGETS = ["SyneTune.Props.C14", "SyneTune.Props.C14Comp", "SyneTune.Props.C14Dy", "SyneTune.Props.C14Sync"]
 DRIVER = "SyneTune/Drivers/Hb.lean"
 THEOREMS = [
     "SyneTune.C14.apply_preserves_wf",
@@ -60,6 +60,28 @@ THEOREMS = [
     "SyneTune.C14Dy.observed_once_dy",
     "SyneTune.C14Dy.observed_only_reported_levels_dy",
     "SyneTune.C14Dy.no_pending_after_end_dy",
+    # synchronous Hyperband x searcher bookkeeping (Props/C14Sync.lean): composed invariant over all histories
+    "SyneTune.Sync.C14S.calls_accepted_sync",
+    "SyneTune.Sync.C14S.cinvS_step",
+    "SyneTune.Sync.C14S.cinvS_all_histories",
+    "SyneTune.Sync.C14S.init_CInvS",
+    "SyneTune.Sync.C14S.sched_component_sync",
+    "SyneTune.Sync.C14S.window_is_code_window",
+    "SyneTune.Sync.C14S.pending_only_running_sync",
+    "SyneTune.Sync.C14S.pending_exact_sync",
+    "SyneTune.Sync.C14S.no_pending_after_end_sync",
+    "SyneTune.Sync.C14S.observed_once_sync",
+    "SyneTune.Sync.C14S.observed_once_from_init_sync",
+    "SyneTune.Sync.C14S.observed_levels_sync",
+    "SyneTune.Sync.C14S.observed_levels_window_sync",
+    "SyneTune.Sync.C14S.selected_report_present_sync",
+    "SyneTune.Sync.C14S.observed_levels_all_present_partial",
+    "SyneTune.Sync.C14S.mkSys_CInvS",
+    "SyneTune.Sync.C14S.fresh_id_counterexample",
+    "SyneTune.Sync.C14S.nan_report_drops_pending",
+    "SyneTune.Sync.C14S.rereport_counterexample",
+    "SyneTune.Sync.C14S.skip_level_counterexample",
+    "SyneTune.Sync.C14S.complete_counterexample",
 ]
 TRUSTED = [
     "hand-written models lean/SyneTune/Model/{HB,SearcherState}.lean tied to /repo by the hb stream run with the real "
@@ -85,8 +107,15 @@ TRUSTED = [
     "stream is the real generator's",
     "monitor-only stream `syncgp` (SynchronousGeometricHyperbandScheduler / GeometricDifferentialEvolutionHyperbandScheduler with "
     "searcher='bayesopt'): decided on the real code by the monitor `mf_monitor` (state_transformer.state read after every event); "
-    "there are NO Lean model lines for the synchronous schedulers' searcher glue here, so for it the evidence is testing of the real "
-    "code, not proof. `mf_monitor` also keeps running on the dyhpo stream, next to the model lines. The milestone / resume level of a "
+    "there are no model lines in THIS stream. For SynchronousHyperbandScheduler the composed system (model of the scheduler, "
+    "Model/SyncScheduler.lean, feeding its searcher calls into the model of the searcher's bookkeeping, Model/SearcherState.lean) is "
+    "proved in Props/C14Sync.lean for all histories; its two halves are tied to the real code separately - the scheduler and the "
+    "searcher calls it makes by the sync correspondence stream of C05 (harness/streams/sync.py compares the calls register_pending / "
+    "on_trial_result(update) / evaluation_failed in order), the bookkeeping by the hb stream here - and this monitor-only stream "
+    "checks the composition on the real objects. A NaN / infinite report drops the pending entry and stores nothing (fixed code, "
+    "`trCall`). DEHB has no Lean model: for it the evidence is testing of the real code, not proof. Kind `hbgp` "
+    "(HyperbandScheduler(type=promotion, searcher=bayesopt) with NaN / infinite reports) is monitor-only as well: the metric values "
+    "of the Lean models are rationals. `mf_monitor` also keeps running on the dyhpo stream, next to the model lines. The milestone / resume level of a "
     "run is read from the scheduler (`_running`, `_trial_to_pending_slot`, `level_to_prev_level`): the data-policy rule is stated "
     "relative to the scheduler's own notion of the run",
 ]
